@@ -168,7 +168,7 @@ func init() { register("C13", true, true, "other", runC13) }
 
 type c13Queue struct {
 	mod, q, marker, entry, what string
-	idOnly bool // the entry key is the element's id alone (the iterator bound is folded into the id)
+	idOnly                      bool // the entry key is the element's id alone (the iterator bound is folded into the id)
 }
 
 var c13Queues = []c13Queue{
@@ -614,6 +614,16 @@ func (cx *Ctx) c13Pairing(r *Report, get func(Entry) *c13Walk) {
 			r.check(ok, "close-dequeues", entryKey(&e)+"|HTLC.State="+x.ev.Args[0].LooseString(), x.ev.Pos(cx), "closing the contract by message removes its expiry-queue entry (key height = the stored ExpirationHeight) on every successful path", "the contract is closed (State := "+x.ev.Args[0].LooseString()+") without removing its expiry-queue entry")
 		}
 	}
+	cx.singleEntryRule(r, get)
+
+}
+
+// singleEntryRule (C13, also C08's schedule clause): a service context is put on
+// the new-batch list only when it is on neither list, was just taken off the
+// expired list, or is brand new; it is put on the expired list only by the
+// new-batch body.
+func (cx *Ctx) singleEntryRule(r *Report, get func(Entry) *c13Walk) {
+	all := cx.EntriesOf("msg", "abci", "callback", "hook")
 	// ------------------------------------------------------------ Q6 single entry per service context
 	var svcEnd *c13Walk
 	for _, e := range cx.entriesOfModule("service", "abci") {
@@ -646,8 +656,19 @@ func (cx *Ctx) c13Pairing(r *Report, get func(Entry) *c13Walk) {
 			case hasPrefix(x.ev, "service:NewRequestBatchKey=0x10"):
 				nSingle++
 				key := kc.next(entryKey(&e) + "|new-batch")
-				_, g1 := x.fact(false, "Keeper.HasNewRequestBatch(")
-				_, g2 := x.fact(false, "Keeper.HasRequestBatchExpiration(")
+				// the guards are recognised by what they read (the two per-context height
+				// records), not by their names
+				g1, g2 := false, false
+				for _, g := range cx.existsCheckersOf("service", "service:NewRequestBatchHeightKey=0x12") {
+					if _, ok := x.fact(false, callNameOfFn(g)+"("); ok {
+						g1 = true
+					}
+				}
+				for _, g := range cx.existsCheckersOf("service", "service:ExpiredRequestBatchHeightKey=0x11") {
+					if _, ok := x.fact(false, callNameOfFn(g)+"("); ok {
+						g2 = true
+					}
+				}
 				fresh := strings.Contains(qKeyArg(x.ev, 0), "GenerateRequestContextID(")
 				inExp := false
 				if cf, _ := closureAncestor(x.ev); cf != nil && cf.Fn == expBody {
@@ -934,7 +955,6 @@ func (cx *Ctx) reviewedDivisor(s abortSite) string {
 	return ""
 }
 
-
 func init() {
 	dumps["c04dbg"] = func(cx *Ctx) {
 		for _, e := range cx.entriesOfModule("htlc", "abci") {
@@ -1103,4 +1123,36 @@ func (cx *Ctx) lostUpdateRule(r *Report, mods []string, minSets int) {
 		r.toolErr("lost-update: only %d store writes analysed (≥%d confirmed)", nSets, minSets)
 	}
 	r.ok("lost-update", strings.Join(mods, ","), "", fmt.Sprintf("%d store writes on message/block/callback paths checked: no value read before an intervening write of the same record family is written back afterwards", nSets))
+}
+
+// existsCheckersOf: functions of module m returning a single bool that read
+// (Has/Get) exactly the given prefix and no other.
+func (cx *Ctx) existsCheckersOf(m, prefix string) []*ssa.Function {
+	var out []*ssa.Function
+	for _, f := range cx.P.AllFuncs {
+		if moduleOf(funcPkgPath(f)) != m || f.Parent() != nil || !isConsensusCode(cx, f) {
+			continue
+		}
+		res := f.Signature.Results()
+		if res.Len() != 1 {
+			continue
+		}
+		if bt, ok := res.At(0).Type().Underlying().(*types.Basic); !ok || bt.Kind() != types.Bool {
+			continue
+		}
+		reads, other := false, false
+		for _, p := range cx.primsOf(f) {
+			if p.Kind == "store.has" || p.Kind == "store.get" {
+				if len(p.Prefix) == 1 && p.Prefix[0] == prefix {
+					reads = true
+				} else {
+					other = true
+				}
+			}
+		}
+		if reads && !other {
+			out = append(out, f)
+		}
+	}
+	return out
 }
